@@ -22,6 +22,11 @@ for name in sorted(os.listdir(os.path.join(VERIF, "seeded"))):
     confirm = open(os.path.join(d, "confirm.log")).read().splitlines()[:3] \
         if os.path.exists(os.path.join(d, "confirm.log")) else []
     results = {}
+    if meta.get("equivalent_since"):
+        rows.append({"id": name, "property": pid, "summary": meta.get("summary", ""),
+                     "needs": "NO LONGER A BREAKING CHANGE: " + meta["equivalent_since"],
+                     "confirmed": confirm, "checks": {}, "equivalent": True})
+        continue
     for seed in seeds:
         scr = tempfile.mkdtemp(prefix="seeded.")
         try:
@@ -67,7 +72,11 @@ with open(os.path.join(VERIF, "seeded", "README.md"), "w") as out:
             cells.append(f"{seed}: " + (f"**{res['label']}** after {res['runs_until_verdict']} runs"
                                          if res["caught"] else f"missed (exit {res['exit']})"))
         needs = str(r["needs"]).replace("|", "/").replace("\n", " ")[:260]
-        out.write(f"| {r['id']} | {r['property']} | {'; '.join(cells)} | {needs} |\n")
-    n_caught = sum(1 for r in rows if any(c["caught"] for c in r["checks"].values()))
-    out.write(f"\n{n_caught} of {len(rows)} caught by at least one of the seeds.\n")
+        out.write(f"| {r['id']} | {r['property']} | {'; '.join(cells) or 'n/a'} | {needs} |\n")
+    live = [r for r in rows if not r.get("equivalent")]
+    n_caught = sum(1 for r in live if any(c["caught"] for c in r["checks"].values()))
+    n_all = sum(1 for r in live if all(c["caught"] for c in r["checks"].values()))
+    out.write(f"\n{n_caught} of {len(live)} caught by at least one of the seeds, {n_all} by "
+              f"every seed; {len(rows) - len(live)} no longer break the property on the "
+              f"repaired tree (see their row).\n")
 print("done")
